@@ -365,3 +365,38 @@ def judge(case, impl):
 def compare(case, impl, model):
     # parsing uses decimal->f64 and +; evaluation uses * + and powi: bit for bit, including the sign of zero
     return impl == model
+
+
+# ---- extraction cross-check: the same cases evaluated inside Coq by vm_compute
+from tools import xenc
+COQ_IMPORTS = 'Base.XEnc Base.Str Model.Poly Model.Parse'
+XCHECK_N = 200
+
+
+def coq_term(case):
+    t = xenc.Toks(case.line)
+    cmd = t.word()
+    s = t.cpstr()
+    if cmd == 'classes':
+        return xenc.CQ_CLASSES % xenc.cq_str(s)
+    # crc thinning below XCHECK_N so that every eligible case is taken, whatever its position in the stream
+    if not xenc.keep(case, 1 if case.cls in ('fixed', 'overflow') else 4 if case.cls in ('malformed-fixed', 'constant') else 35):
+        return None
+    if xenc.big_exponent(s):
+        return None
+    parsed = '(@parse_simple float FNum uclass_tab %s)' % xenc.cq_str(s)
+    if cmd == 'parse':
+        return 'enc_res %s %s' % (xenc.CQ_ENC_SPOLY, parsed)
+    if cmd == 'eval':
+        xs = t.fvec()
+        return 'enc_res (map float_bits) (res_map (fun p => map (@eval_simple float FNum p) %s) %s)' % (xenc.cq_floats(xs), parsed)
+    return None
+
+
+def encode_result(case, model_line):
+    cmd = case.line.split(' ', 1)[0]
+    if cmd == 'classes':
+        return xenc.enc_classes_line(model_line)
+    if cmd == 'parse':
+        return xenc.enc_line(model_line, xenc.enc_spoly_toks)
+    return xenc.enc_line(model_line, lambda t: [xenc.float_tok_bits(x) for x in t])
